@@ -6,6 +6,7 @@ import GoSquare.Properties.C10
 import GoSquare.Properties.C13
 import GoSquare.Properties.C15
 import GoSquare.Properties.C16
+import GoSquare.Properties.C17
 import GoSquare.Properties.C18
 import GoSquare.Properties.C19
 import GoSquare.Properties.C20
@@ -53,6 +54,9 @@ import GoSquare.Properties.C20
 #print axioms GoSquare.C16.deconstruct_total
 #print axioms GoSquare.C16.parseDelimiter_spec
 #print axioms GoSquare.C16.getShareRange_bounds
+#print axioms GoSquare.C17.goAppend_frame
+#print axioms GoSquare.C17.accumulate_frame
+#print axioms GoSquare.C17.accumulate_from_nil_preserves_memory
 #print axioms GoSquare.C18.compare_spec
 #print axioms GoSquare.C18.compare_total_order
 #print axioms GoSquare.C18.predicates_spec
